@@ -460,7 +460,8 @@ type FakeDocker struct {
 	Gate func(id string)
 	// Done, if set, is called when ContainerLogs is about to return (after the reader exists).
 	Done func(id string)
-	// FilterByTime makes the fake honour since/until like the daemon does (whole seconds, inclusive).
+	// FilterByTime makes the fake honour since/until like the daemon does (seconds with an optional
+	// decimal fraction, inclusive).
 	FilterByTime bool
 	Frames       map[string][]Frame // needed when FilterByTime is set
 
@@ -517,17 +518,40 @@ func (f *FakeDocker) ContainerLogs(_ context.Context, id string, opts apicontain
 	return nil, fmt.Errorf("verif: no such container %q", id)
 }
 
+// dockerTimestamp reads a since/until value the way the daemon does: "<seconds>" or
+// "<seconds>.<fraction>", the fraction being a decimal fraction of a second (".5" is 500 ms, ".05" is
+// 50 ms); anything else counts as "no bound".
+func dockerTimestamp(v string, def int64) int64 {
+	if v == "" {
+		return def
+	}
+	secs, frac, hasFrac := strings.Cut(v, ".")
+	var sec int64
+	if _, err := fmt.Sscan(secs, &sec); err != nil {
+		return def
+	}
+	ns := int64(0)
+	if hasFrac {
+		if len(frac) > 9 {
+			frac = frac[:9]
+		}
+		var f int64
+		if _, err := fmt.Sscan(frac, &f); err != nil {
+			return def
+		}
+		for i := len(frac); i < 9; i++ {
+			f *= 10
+		}
+		ns = f
+	}
+	return sec*1e9 + ns
+}
+
 func filterFrames(frames []Frame, since, until string) []Frame {
 	var out []Frame
-	var s, u int64 = -1 << 62, 1 << 62
-	if since != "" {
-		fmt.Sscan(since, &s)
-	}
-	if until != "" {
-		fmt.Sscan(until, &u)
-	}
+	s, u := dockerTimestamp(since, -1<<62), dockerTimestamp(until, 1<<62)
 	for _, fr := range frames {
-		if fr.TS < s*1e9 || fr.TS > u*1e9 {
+		if fr.TS < s || fr.TS > u {
 			continue
 		}
 		out = append(out, fr)
